@@ -558,7 +558,7 @@ where
         let entries_size = entries.iter().map(|e| e.size()).sum::<usize>();
 
         let remaining = packet_id_size + entries_size;
-        let remaining_length = VariableByteInteger::from_u32(remaining as u32).unwrap();
+        let remaining_length = VariableByteInteger::from_len(remaining)?;
 
         Ok(GenericSubscribe {
             fixed_header: [FixedHeader::Subscribe as u8],
